@@ -6,7 +6,7 @@ import ast
 from ..pattern import pmatch, pfind, pall
 
 from ..absval import Lin, Undecided, linform
-from ..core import (AnalysisError, call_name, dotted, is_const, kwarg, local_defs, norm, origin, parent_map,
+from ..core import (alpha, AnalysisError, call_name, dotted, is_const, kwarg, local_defs, norm, origin, parent_map,
                     walk_local)
 from ..facts import guards_of, returns_of, enclosing_loops, default_of
 from ..rules.memo import id_calls, memo_sites
@@ -46,6 +46,7 @@ def run(rep):
     rep.run(effects)
     rep.run(dedupe)
     rep.run(batching)
+    rep.run(cluster_state)
     rep.run(sweep)
 
 
@@ -364,6 +365,43 @@ def batching(rep):
     ok = len(l2) == 1 and norm(l2[0].iter) == D2 and pall([f"$u, {T2} = self.lib_check({norm(l2[0].target)}, {T2}, rule_key, attribute_key)"], l2[0]) is not None \
         and bool(returns_of(cu.node)) and norm(returns_of(cu.node)[-1].value) == f"({D2}, {T2})"
     rep.ob("O14.4", "BATCH", cu, ok, l2[0].iter if l2 else "for", "within a batch entries are classified one by one against the growing template list (same as one long batch)")
+
+
+def cluster_state(rep):
+    """classification of an entry may depend only on the entry and the template list handed in: the clustering methods keep no
+    per-instance running state (a counter or a 'last seen' value that survives a call makes the result of the next call depend on the
+    earlier batches / earlier libraries)"""
+    GCL = "synkit/Graph/Matcher/graph_cluster.py"
+    n = 0
+    for rel, quals in ((BC, ("BatchCluster.lib_check", "BatchCluster.cluster", "BatchCluster.fit", "BatchCluster.batch_dicts")),
+                       (GCL, ("GraphCluster.fit", "GraphCluster.iterative_cluster"))):
+        for q in quals:
+            fi = rep.repo.maybe_func(rel, q)
+            if fi is None:
+                continue
+            rep.touch(fi)
+            n += 1
+            scalar, keyed = [], []
+            for st in walk_local(fi.node):
+                tgs = st.targets if isinstance(st, ast.Assign) else ([st.target] if isinstance(st, (ast.AugAssign, ast.AnnAssign)) else [])
+                for t in tgs:
+                    for tt in (t.elts if isinstance(t, ast.Tuple) else [t]):
+                        if isinstance(tt, ast.Attribute) and norm(tt.value) == "self":
+                            scalar.append((tt.attr, st))
+                        if isinstance(tt, ast.Subscript) and norm(tt.value).startswith("self."):
+                            keyed.append((norm(tt.value), st))
+                if isinstance(st, ast.Expr) and isinstance(st.value, ast.Call) and isinstance(st.value.func, ast.Attribute) and norm(st.value.func.value).startswith("self.") \
+                        and st.value.func.attr in ("append", "add", "update", "setdefault", "extend", "pop", "clear", "insert"):
+                    keyed.append((norm(st.value.func.value), st))
+            for attr, st in scalar:
+                rep.ob("O14.4", "BATCH", fi, False, alpha(st, fi.node),
+                       f"`self.{attr}` is running state written while classifying: what the next call returns then depends on the batches / libraries seen before "
+                       "(batched and one-shot clustering, or two libraries handled by one instance, no longer agree)", node=st)
+            for what, st in keyed:
+                rep.ob("O14.4", "BATCH", fi, None, alpha(st, fi.node), f"`{what}` is per-instance keyed state written while classifying: its key has not been audited", node=st)
+            if not scalar and not keyed:
+                rep.ob("O14.4", "BATCH", fi, True, f"{q}: no write to self", "classification keeps no per-instance state between calls", node=fi.node)
+    rep.need("BATCH", n, 5, "clustering methods scanned for instance state")
 
 
 # ------------------------------------------------------------------ package-wide sweep (notes only)
